@@ -119,3 +119,69 @@ def macrocycle(n):
 def long_branch(n):
     """Branch whose symbol carries the index value n (branch of n + 1 atoms)."""
     return "C(" + "C" * (n + 1) + ")C"
+
+
+def aromatic_spellings(n, edges, rng, count):
+    """SMILES spellings of an all-'c' graph via RDKit (random atom orders); [] if RDKit cannot build it."""
+    try:
+        from rdkit import Chem, RDLogger
+        RDLogger.DisableLog("rdApp.*")
+    except Exception:
+        return []
+    rw = Chem.RWMol()
+    for _ in range(n):
+        a = Chem.Atom(6)
+        a.SetIsAromatic(True)
+        a.SetNoImplicit(False)
+        rw.AddAtom(a)
+    for a, b in edges:
+        rw.AddBond(a, b, Chem.BondType.AROMATIC)
+    m = rw.GetMol()
+    out = set()
+    for _ in range(count * 3):
+        try:
+            s = Chem.MolToSmiles(m, canonical=False, doRandom=True, rootedAtAtom=rng.randrange(n))
+        except Exception:
+            break
+        out.add(s)
+        if len(out) >= count:
+            break
+    return sorted(out)
+
+
+def small_graphs(rng, nmax, per_size, maxdeg=3):
+    """Random connected graphs with maximum degree 3 (sigma skeletons of aromatic carbons), biased towards
+    odd cycles and fused small rings."""
+    out = []
+    for n in range(3, nmax + 1):
+        tries = 0
+        got = 0
+        while got < per_size and tries < per_size * 30:
+            tries += 1
+            edges = set()
+            deg = [0] * n
+            perm = list(range(n))
+            rng.shuffle(perm)
+            for i in range(1, n):          # random spanning tree
+                cand = [perm[j] for j in range(i) if deg[perm[j]] < maxdeg]
+                if not cand:
+                    break
+                p = rng.choice(cand)
+                edges.add((min(p, perm[i]), max(p, perm[i])))
+                deg[p] += 1
+                deg[perm[i]] += 1
+            else:
+                extra = rng.randint(1, max(1, n // 2))
+                for _ in range(extra * 3):
+                    a, b = rng.sample(range(n), 2)
+                    e = (min(a, b), max(a, b))
+                    if e not in edges and deg[a] < maxdeg and deg[b] < maxdeg:
+                        edges.add(e)
+                        deg[a] += 1
+                        deg[b] += 1
+                        extra -= 1
+                        if extra == 0:
+                            break
+                out.append((n, sorted(edges)))
+                got += 1
+    return out
